@@ -28,7 +28,7 @@ TIE_MODULES = ["StathamModel.Tie"]
 ASSUMPTIONS = ["PARTIAL: CPython's real preemption granularity (bytecode level, C-level atomicity, the GIL) is not modelled; the controlled scheduler "
                "switches at library line boundaries, the stress runs let the interpreter switch freely",
                "threads only validate (no reconfiguration while calls are in flight)"]
-N_SCEN = {"quick": 60, "thorough": 600}
+N_SCEN = {"quick": 60, "thorough": 400}
 N_SCHED = {"quick": 10, "thorough": 25}
 
 
